@@ -487,6 +487,14 @@ def check_assume_init(ctx, cfg):
     return n
 
 
+def has_generic_ty(t):
+    if not isinstance(t, dict):
+        return False
+    if t.get("k") in ("param", "proj", "alias"):
+        return True
+    return any(has_generic_ty(x) for x in t.get("args", []) if isinstance(x, dict)) or has_generic_ty(t.get("t")) or has_generic_ty(t.get("elem"))
+
+
 def check_vec_disown(ctx, cfg, rule="C03.V"):
     """`Vec::set_len(k)` with k below the length makes the Vec forget elements [k, len) without dropping them: on every return path through it
     those elements must have been taken over - a raw copy out of the Vec's own buffer, from its start, of exactly the old length, into storage
@@ -497,7 +505,8 @@ def check_vec_disown(ctx, cfg, rule="C03.V"):
     for b in db.bodies:
         if b["kind"] not in ("Fn", "AssocFn") or ctx.is_helper(cfg, b):
             continue
-        if not any(t["term"]["k"] == "call" and t["term"]["f"].get("k") == "fn" and t["term"]["f"]["def"] == "alloc::vec::Vec::<T, A>::set_len" for t in ctx.inlined(db, b)["mir"]["blocks"]):
+        if not any(t["term"]["k"] == "call" and t["term"]["f"].get("k") == "fn" and t["term"]["f"]["def"] in (
+                "alloc::vec::Vec::<T, A>::set_len", "alloc::vec::Vec::<T, A>::as_ptr", "alloc::vec::Vec::<T, A>::as_mut_ptr") for t in ctx.inlined(db, b)["mir"]["blocks"]):
             continue
         at = ctx.analysis_inl(cfg, b["key"], split=True)
         bad, und = [], []
@@ -506,6 +515,24 @@ def check_vec_disown(ctx, cfg, rule="C03.V"):
             if calls is None:
                 und.append("return at bb%d: path not unique" % r["bb"])
                 continue
+            # the converse: elements copied out of a Vec's own buffer (a raw duplicate) must be forgotten by the Vec on the same path - emptied
+            # by set_len(0), or the Vec itself put beyond dropping - or they are dropped once more when the Vec goes
+            for ap_ in calls:
+                if ap_.fn not in ("alloc::vec::Vec::<T, A>::as_ptr", "alloc::vec::Vec::<T, A>::as_mut_ptr") or ap_.args[0][0] != "P":
+                    continue
+                vec_ = ap_.args[0][1]
+                outs_ = [c for c in calls if ((c.fn in ("core::ptr::read", "core::ptr::read_unaligned") and c.args[0] == ap_.ret)
+                                              or (c.fn in ("core::ptr::copy_nonoverlapping", "core::ptr::copy") and c.args[0] == ap_.ret))]
+                if not outs_:
+                    continue
+                vt_ = at.local_ty(vec_[1]) if vec_[0] in ("local", "arg") else None
+                et_ = adt_args(vt_)[0] if vt_ is not None and vt_.get("k") == "adt" and adt_args(vt_) else None
+                if et_ is not None and not has_generic_ty(et_):
+                    continue   # a concrete element type without drop glue in this crate (u8 buffers)
+                emptied = any(c.fn == "alloc::vec::Vec::<T, A>::set_len" and c.args[0][0] == "P" and c.args[0][1] == vec_ and c.args[1] == ("I", Poly.const(0)) for c in calls)
+                gone = any(c.fn in ("core::mem::forget", "core::mem::ManuallyDrop::<T>::new") and (c.args[0] == ("V",) + vec_ or (c.args[0][0] == "P" and c.args[0][1] == vec_)) for c in calls)
+                if not (emptied or gone):
+                    bad.append("elements copied out of the Vec's buffer at %s are still the Vec's own when it is dropped on the path returning %s: dropped twice" % (outs_[0].at, vstr(r["val"])[:60]))
             for i, s_ in enumerate(calls):
                 if s_.fn != "alloc::vec::Vec::<T, A>::set_len" or s_.args[0][0] != "P" or s_.args[1][0] != "I":
                     continue
@@ -521,6 +548,15 @@ def check_vec_disown(ctx, cfg, rule="C03.V"):
                 ptrs = [c for c in calls if c.fn in ("alloc::vec::Vec::<T, A>::as_ptr", "alloc::vec::Vec::<T, A>::as_mut_ptr") and c.args[0][0] == "P" and c.args[0][1] == vec]
                 took = [c for c in calls if c.fn in ("core::ptr::copy_nonoverlapping", "core::ptr::copy") and any(c.args[0] == p_.ret for p_ in ptrs)
                         and at.as_poly(c.args[2]) is not None and prove(("==", at.as_poly(c.args[2]) - (old - s_.args[1][1])), pf)]
+                if not took and vec[0] in ("local", "arg"):
+                    # the same as one whole-value read: `ptr::read(v.as_ptr() as *const GenericArray<T, N>)` - as many bytes as the forgotten
+                    # elements occupy, from the buffer's start
+                    vt = at.local_ty(vec[1])
+                    et = adt_args(vt)[0] if vt is not None and vt.get("k") == "adt" and adt_args(vt) else None
+                    if et is not None:
+                        want = at.tenv.size(et) * (old - s_.args[1][1])
+                        took = [c for c in calls if c.fn in ("core::ptr::read", "core::ptr::read_unaligned") and any(c.args[0] == p_.ret for p_ in ptrs) and c.targs
+                                and prove(("==", at.tenv.size(c.targs[0]) - want), pf)]
                 if not (took and s_.args[1][1].is_const() and s_.args[1][1].const_value() == 0):
                     bad.append("the elements the Vec forgets at %s (set_len(%r) of %r) are not taken over on the path returning %s: dropped zero times" % (s_.at, s_.args[1][1], old, vstr(r["val"])[:60]))
         st = REFUTED if bad else (UNKNOWN if und else PROVED)
